@@ -117,6 +117,20 @@ def cases(ctx, n, thorough):
             api = "file"
         out.append(Case(recs, type_, threads=rng.choice([1, 4, 16]), fmt="fasta", api=api, evlog=True,
                         jitter=rng.choice([0, 0, rng.randint(1, 10 ** 6)])))
+    # >= 100 members of one tight family (end-truncated fragments, so the family's own alignment has gaps) plus one or two unrelated sequences:
+    # the bisecting k-means splits off clusters of a single sequence, on either side
+    for j in range(12 if thorough else 4):
+        kind = rng.choice(["protein", "protein", "dna"])
+        alpha_ = gen.AA if kind == "protein" else gen.DNA
+        base = gen.rand_seq(rng, alpha_, rng.choice([60, 80, 120]))
+        nfam = rng.choice([100, 110, 120, 150])
+        recs = []
+        for k in range(nfam):
+            a0, b0 = rng.randint(0, 12), rng.randint(0, 12)
+            recs.append(("frag%03d" % k, gen.mutate(rng, base[a0:len(base) - b0], alpha_, rng.choice([0.0, 0.03]), 0.0)))
+        for k in range(1 if j % 3 else 2):
+            recs.insert(rng.randint(0, len(recs)), ("lone%d" % k, gen.rand_seq(rng, alpha_, rng.choice([15, 30, 90, 200]))))
+        out.append(Case(recs, gen.fit_type(5, kind, recs), threads=rng.choice([1, 4]), fmt="fasta", api="file", evlog=True, tag="family + lone outlier"))
     return out
 
 
